@@ -4,32 +4,45 @@
     generic in the external oracles (position line extents, name/duration validity): Section variables with
     no assumed behaviour.  Only property theorems here; proofs in Proofs/C19_relaxed.v, Proofs/C19_wrapper.v. *)
 From Coq Require Import List String Ascii Arith Bool NArith.
-From PintV Require Import Common.Bytes Model.Yaml Model.Parser Proofs.C19_relaxed Proofs.C19_wrapper Proofs.C19_bound.
+From PintV Require Import Common.Bytes Model.Yaml Model.Parser Model.YamlShape Proofs.C19_relaxed Proofs.C19_wrapper Proofs.C19_bound Proofs.C19_shape.
 Import ListNotations.
 Open Scope string_scope.
 Open Scope list_scope.
 
-(** (1) FULL STATEMENT (all forests): on every strict-valid forest relaxed mode returns the rules of strict mode
-    (rule = kind, name, expr, for, labels, annotations with their line extents, error, first/last line).
-    It WAS false of the faithful model and of pint for one pathological class (explicit tags contradicting the node
-    kind) until fixes b22de24 + 4a0d172; see the regression theorems below.  The partial theorem carries the guard
-    [wf_doc]:
-      - the document node is a document and its roots are not aliases (true of every yaml.v3 forest);
-      - alias fields only on alias nodes (true of every yaml.v3 forest);
-      - a node tagged !!map / !!seq / !!null that is not a mapping / sequence has no content and no
-        embedded document, i.e. no explicit tag contradicting the node kind.  Since fixes b22de24 + 4a0d172 strict mode itself
-        rejects this at every node it visits (known finding C19-tag-kind closed); the guard is kept in its old
-        form (sufficient, no longer known to be necessary).
-    (A second class found by the proof attempt — alias nodes used as mapping keys, read through the anchor
-    NAME by strict mode — was repaired in pint by commit 3dfcdb6; the guard clause is gone, the witness
-    corpus/C19/alias_key.yaml is now rejected by strict mode, see [C19_alias_key_now_rejected].) *)
+(** (1) FULL STATEMENT, PROVED: on every strict-valid document relaxed mode returns the rules of strict mode (rule = kind,
+    name, expr, for, labels, annotations with their line extents, error, first/last line, in order).  The premises are
+    NOT guards about the input's tags any more, only
+      - [shape_doc]: purely structural facts true of every forest yaml.v3 builds (the document node is a document,
+        its roots are not aliases, alias fields only on alias nodes, alias and scalar nodes have no content, only
+        scalars carry an embedded document) — checked executably on every correspondence case ([shaped_b], Run/C19.v);
+      - [null_oracle_ok]: the one fact about the oracle null_ok (yaml.Node.Decode into `any` gives nil): such a
+        scalar has no embedded document (its value is a spelling of null, it has no line break).
+    History: the statement was false of pint for two classes found by the proof attempts (alias used as a mapping key,
+    fixed 3dfcdb6; explicit tags contradicting the node kind, fixed b22de24 + 4a0d172 + b9483ac); the former guard
+    [wf_doc] on tags is now DERIVED from strict validity ([wf_doc_of_shape], Proofs/C19_relaxed.v). *)
 Definition C19_full_statement : Prop :=
   forall plines metric_ok lname_ok lvalue_ok dur_ok int_ok null_ok thanos lines d nl,
+    shape_doc d -> null_oracle_ok null_ok ->
     strict_valid (parse_strict plines metric_ok lname_ok lvalue_ok dur_ok int_ok null_ok thanos lines [(d, nl)] None) ->
     exists f', parse_relaxed plines metric_ok lname_ok lvalue_ok lines [(d, nl)] None = Some f' /\
+               f_error f' = None /\
                all_rules (f_groups f') =
                all_rules (f_groups (parse_strict plines metric_ok lname_ok lvalue_ok dur_ok int_ok null_ok thanos lines [(d, nl)] None)).
 
+Theorem C19_relaxed_eq_strict : C19_full_statement.
+Proof. unfold C19_full_statement. intros. eapply relaxed_eq_strict_shaped; eassumption. Qed.
+Print Assumptions C19_relaxed_eq_strict.
+
+
+(** The structural premise is decidable: [shaped_b] (Model/YamlShape.v) is evaluated on the forest yaml.v3 actually returned
+    in every correspondence case of C19, C02 and C01 (Run/C19.v [hyp_shape], together with the oracle fact), and it is
+    sound. *)
+Theorem C19_shape_check_sound : forall d, shaped_b d = true -> shape_doc d.
+Proof. exact shaped_b_sound. Qed.
+Print Assumptions C19_shape_check_sound.
+
+(** The lemma it rests on, for any forest: what is needed of each node is that wherever strict mode's kindMismatch test
+    lets it pass as a mapping / sequence, it is one or holds nothing ([wf_doc]). *)
 Theorem C19_relaxed_eq_strict_partial :
   forall plines metric_ok lname_ok lvalue_ok dur_ok int_ok null_ok thanos lines d nl,
     wf_doc d ->
